@@ -32,8 +32,8 @@ ASSUMPTIONS = ['rename maps are {str: str} (what the choice editor sends); filte
                'of choice columns), or the empty string',
                'formula results that depend on X and summary tables keyed on X legitimately change and are not judged',
                'widgetOptions are documented as not touched by this action, so they are part of "nothing else"']
-BUDGET = {'quick': dict(examples=1200, shards=8, max_seconds=60),
-          'thorough': dict(examples=16000, shards=16, max_seconds=480)}
+BUDGET = {'quick': dict(examples=1000, shards=8, max_seconds=50),
+          'thorough': dict(examples=10000, shards=16, max_seconds=420)}
 
 POOL = ['a', 'b', 'c', 'dd', '', 'zz', 'e', ' a', 'A']
 FPOOL = POOL + [1, None, True, 2.5, 'b', 'a']
@@ -188,9 +188,29 @@ def build(case, out):
   return d, kind, colref
 
 
+def from_concrete(case):
+  """case = {'concrete': [[user actions of a bundle], ...]}: the last bundle is the RenameChoices on Src.X."""
+  hist = [b for b in case['concrete'] if b]
+  d = Doc()
+  for uas in hist[:-1]:
+    d.apply(uas)
+  ua = hist[-1][0]
+  if ua[0] != 'RenameChoices' or ua[1] != 'Src' or ua[2] != 'X':
+    raise RuntimeError('C39 concrete case must end with RenameChoices on Src.X')
+  src_ref = [t for t in d.tables_meta() if t['tableId'] == 'Src'][0]['id']
+  colref = {c['colId']: c['id'] for c in d.columns_meta() if c['parentId'] == src_ref}
+  xrec = [c for c in d.columns_meta() if c['id'] == colref['X']][0]
+  kind = 'formula' if xrec['isFormula'] else xrec['type']
+  return d, kind, colref, dict(ua[3])
+
+
 def run_case(case):
   out = Outcome()
-  d, kind, colref = build(case, out)
+  fixed_ren = None
+  if isinstance(case, dict) and case.get('concrete'):
+    d, kind, colref, fixed_ren = from_concrete(case)
+  else:
+    d, kind, colref = build(case, out)
   before = d.snapshot()
   filters_before = {f['id']: f for f in d.meta('_grist_Filters')}
   raw_before = d.fetch_repr('Src')
@@ -217,6 +237,8 @@ def run_case(case):
   for p in (case.get('renames') or [])[:4]:
     p = _pad(p, [0, 0])
     ren[pick(p[0])] = pick(p[1])
+  if fixed_ren is not None:
+    ren = fixed_ren
   r = d.apply([['RenameChoices', 'Src', 'X', ren]])
   out['concrete'] = d.concrete_history()[1:]
   out['key'] = eqv.digest(out['concrete'])
